@@ -1,6 +1,7 @@
 package isobmff
 
 import (
+	"bufio"
 	"io"
 
 	"github.com/evanoberholster/imagemeta/meta"
@@ -50,6 +51,11 @@ func (b *box) Peek(n int) ([]byte, error) {
 // Discard advances the reader. Is limited by the
 // constrains of the box.
 func (b *box) Discard(n int) (int, error) {
+	if n < 0 {
+		// a negative count (an Exif offset that points backwards) must not enlarge the box and
+		// every enclosing box: closing them would then skip past their real end
+		return 0, bufio.ErrNegativeCount
+	}
 	if b.remain >= n {
 		b.remain -= n
 		if b.outer != nil {
